@@ -62,24 +62,7 @@ func genC04(r *Runner) {
 		}
 	}
 	// c. URL kinds at every position
-	kinds := []string{"http://ocspk.test/r", "HTTP://ocspupper.test/r", "https://ocsps.test/r", "ftp://ocspf.test/r", "ldap://ocspl.test/r", "//noscheme.test/r", "http://bad.test/%zz", ":bad", "http://ctl.test/\x7f", "", " http://space.test/"}
-	for _, k1 := range kinds {
-		for _, k2 := range kinds {
-			if k1 == k2 {
-				continue
-			}
-			for _, b := range []string{"good", "revoked", "transport-error"} {
-				l := levelSpec{ocspURLs: []string{k1, k2}, ocspBeh: []string{b, b}}
-				c := one(l, 2, "urlkind")
-				cases = append(cases, c)
-				c2 := one(l, 2, "urlkind")
-				c2.mode = "ocsp"
-				cases = append(cases, c2)
-			}
-		}
-		l := levelSpec{ocspURLs: []string{k1}, ocspBeh: []string{"good"}}
-		cases = append(cases, one(l, 1, "urlkind"))
-	}
+	cases = append(cases, ocspURLKindCases(true)...)
 	// d. long serial numbers (GET vs POST request encoding)
 	for _, sb := range []int{1, 20, 40, 116, 117, 118, 119, 120, 121, 200} {
 		for _, b := range []string{"good", "revoked", "garbage"} {
@@ -166,6 +149,7 @@ func genC05(r *Runner) {
 			cases = append(cases, c)
 		}
 	}
+	cases = append(cases, nearlyEqualURLCases()...)
 	runChainCases(r, cases)
 }
 
@@ -296,6 +280,32 @@ func genC10(r *Runner) {
 					cases = append(cases, c)
 				}
 			}
+		}
+	}
+	// the same entries reached through the fallback route: a responder that is inconclusive, then the lists
+	for _, ob := range []string{"unknown", "transport-error", "http-500", "good-expired"} {
+		for _, inv := range []string{"after", "after-1s", "before", "equal", "none"} {
+			for _, reason := range []int{1, 6} {
+				for _, inDelta := range []bool{false, true} {
+					for _, stZero := range []bool{false, true} {
+						e := entryAbs{true, reason, 1, inv, false, ""}
+						var c chainCase
+						if inDelta {
+							c = entriesCase("after-inconclusive-ocsp", nil, []entryAbs{e}, true, stZero)
+						} else {
+							c = entriesCase("after-inconclusive-ocsp", []entryAbs{e}, nil, false, stZero)
+						}
+						c.levels[0].ocspURLs, c.levels[0].ocspBeh = urlsN(ocspURL, 0, 1), []string{ob}
+						cases = append(cases, c)
+					}
+				}
+			}
+		}
+		// hold / remove pairs on that route
+		for _, pair := range [][2]entryAbs{{{true, 6, 0, "none", false, ""}, {true, 8, 2, "none", false, ""}}, {{true, 8, 0, "none", false, ""}, {true, 6, 2, "after", false, ""}}} {
+			c := entriesCase("after-inconclusive-ocsp-pair", []entryAbs{pair[0], pair[1]}, nil, false, false)
+			c.levels[0].ocspURLs, c.levels[0].ocspBeh = urlsN(ocspURL, 0, 1), []string{ob}
+			cases = append(cases, c)
 		}
 	}
 	// serial numbers wider than 64 bits: only the very same integer matches
@@ -507,6 +517,7 @@ func genC11(r *Runner) {
 	}
 	// cancellation before / during / after: every source then fails, but the routing is the same — an inconclusive OCSP stage is
 	// followed by the CRL stage (a fetcher may well answer without the network), labelled as such
+	cases = append(cases, ocspURLKindCases(false)...)
 	cases = append(cases, cancelCases(rng)...)
 	runChainCases(r, cases)
 }
@@ -606,6 +617,7 @@ func genC12(r *Runner) {
 	}
 	// distribution points that are not plain http are distribution points all the same: one entry per point, never NonRevokable
 	cases = append(cases, crlSchemeFaultCases([][]string{nil, {"unknown"}, {"good"}})...)
+	cases = append(cases, ocspURLKindCases(false)...)
 	cases = append(cases, cancelCases(rng)...)
 	cases = append(cases, realFetcherDeltaCases()...)
 	runChainCases(r, cases)
@@ -704,6 +716,8 @@ func genC06(r *Runner) {
 			cases = append(cases, one(l, 2, "assign-o3k1"))
 		}
 	}
+	cases = append(cases, nearlyEqualURLCases()...)
+	cases = append(cases, ocspURLKindCases(false)...)
 	cases = append(cases, cancelCases(rng)...)
 	cases = append(cases, realFetcherDeltaCases()...)
 	runChainCases(r, cases)
@@ -748,6 +762,39 @@ func cancelCases(rng *rand.Rand) []chainCase {
 	return cases
 }
 
+// nearlyEqualURLCases: two distribution points of one certificate whose URLs differ in a part that a careless cache key drops
+// or folds — the query, the case of the path, an escaped character, a trailing slash, the port — each its own list: the first
+// clean, the second listing the certificate / expired / failing; through the real fetcher with and without a cache
+func nearlyEqualURLCases() []chainCase {
+	var cases []chainCase
+	pairs := [][2]string{
+		{"http://crl.partition.test/issuing.crl?partition=1", "http://crl.partition.test/issuing.crl?partition=2"},
+		{"http://crl.partition.test/issuing.crl", "http://crl.partition.test/issuing.crl?delta"},
+		{"http://crl.partition.test/list.crl", "http://crl.partition.test/List.crl"},
+		{"http://crl.partition.test/a%2Fb.crl", "http://crl.partition.test/a/b.crl"},
+		{"http://crl.partition.test/dir", "http://crl.partition.test/dir/"},
+		{"http://crl.partition.test/p.crl", "http://crl.partition.test:8080/p.crl"},
+		{"http://crl.partition.test/q.crl", "http://user@crl.partition.test/q.crl"},
+	}
+	for _, pr := range pairs {
+		for _, second := range []string{"lists-cert", "expired", "fetch-error", "clean"} {
+			for _, cache := range []bool{false, true} {
+				for _, swap := range []bool{false, true} {
+					urls, beh := []string{pr[0], pr[1]}, []string{"clean", second}
+					if swap {
+						urls, beh = []string{pr[1], pr[0]}, []string{"clean", second}
+					}
+					l := levelSpec{crlURLs: urls, crlBeh: beh}
+					c := one(l, 2, "nearly-equal-urls")
+					c.realFetcher, c.realCache = true, cache
+					cases = append(cases, c)
+				}
+			}
+		}
+	}
+	return cases
+}
+
 // realFetcherDeltaCases: bundles with a delta list served over HTTP through the real fetcher (the base list says where its
 // delta is), undisturbed and with the caller's context cancelled when the second request — the one for the delta — arrives
 func realFetcherDeltaCases() []chainCase {
@@ -761,6 +808,43 @@ func realFetcherDeltaCases() []chainCase {
 			c := one(l, 2, "real-fetcher-delta"+ifs(cancel != "", "-cancel-"+cancel, ""))
 			c.realFetcher, c.cancel = true, cancel
 			cases = append(cases, c)
+		}
+	}
+	return cases
+}
+
+// ocspURLKindCases: responder URLs of every kind (plain http, upper-case scheme, https, ftp, ldap, scheme-less, unparsable,
+// control characters, empty, leading space) at every position of a list of two, and alone; with a CRL distribution point
+// behind them too when withCRL (the fallback must not be lost, nor NonRevokable reported, whatever the responder URL looks like)
+func ocspURLKindCases(ocspOnly bool) []chainCase {
+	var cases []chainCase
+	// c. URL kinds at every position
+	kinds := []string{"http://ocspk.test/r", "HTTP://ocspupper.test/r", "https://ocsps.test/r", "ftp://ocspf.test/r", "ldap://ocspl.test/r", "//noscheme.test/r", "http://bad.test/%zz", ":bad", "http://ctl.test/\x7f", "", " http://space.test/"}
+	for _, k1 := range kinds {
+		for _, k2 := range kinds {
+			if k1 == k2 {
+				continue
+			}
+			for _, b := range []string{"good", "revoked", "transport-error"} {
+				l := levelSpec{ocspURLs: []string{k1, k2}, ocspBeh: []string{b, b}}
+				c := one(l, 2, "urlkind")
+				cases = append(cases, c)
+				c2 := one(l, 2, "urlkind")
+				c2.mode = "ocsp"
+				cases = append(cases, c2)
+			}
+		}
+		l := levelSpec{ocspURLs: []string{k1}, ocspBeh: []string{"good"}}
+		cases = append(cases, one(l, 1, "urlkind"))
+	}
+	if !ocspOnly {
+		for _, k1 := range kinds {
+			for _, kb := range []string{"clean", "lists-cert", "fetch-error"} {
+				l := levelSpec{ocspURLs: []string{k1}, ocspBeh: []string{"transport-error"}, crlURLs: urlsN(crlURL, 0, 1), crlBeh: []string{kb}}
+				cases = append(cases, one(l, 2, "urlkind-then-crl"))
+				l2 := levelSpec{ocspURLs: []string{ocspURL(0, 0), k1}, ocspBeh: []string{"transport-error", "transport-error"}, crlURLs: urlsN(crlURL, 0, 1), crlBeh: []string{kb}}
+				cases = append(cases, one(l2, 2, "urlkind-last-then-crl"))
+			}
 		}
 	}
 	return cases
